@@ -296,8 +296,9 @@ class ItemFactory:
             }
             self.item_cache.update(definition_items)
 
-            if name in definition_items:
-                return definition_items[name]
+            # Item names are lower-case, the requested name may carry a mixed-case suffix
+            if name.lower() in definition_items:
+                return definition_items[name.lower()]
 
         # Check for existing scope item
         if scope_name and scope_name in self.item_cache:
